@@ -1,10 +1,11 @@
 #!/usr/bin/env python3
 """Writes one prompt per code area for a round of independent behaviour-preserving refactorings (false-alarm tests).
-usage: refactorprompts.py <round-dir> [second]   -> <round-dir>/<area>.prompt.txt; worktrees are <round-dir>/<area>."""
+usage: refactorprompts.py <round-dir> [second|third]   -> <round-dir>/<area>.prompt.txt; worktrees are <round-dir>/<area>."""
 import os, sys
 here = os.path.dirname(os.path.abspath(__file__))
 rd = sys.argv[1]
-second = len(sys.argv) > 2
+second = len(sys.argv) > 2 and sys.argv[2] == 'second'
+third = len(sys.argv) > 2 and sys.argv[2] == 'third'
 areas = {
  'engine': 'engine.go of the root package: Engine.Begin, Commit, Abort, Watch, Close, expire, CreateEngine.',
  'transaction1': 'transaction.go of the root package, the document write paths: Transaction.Insert / insert, Replace / replace, Update / update, Delete / delete, Bulk, append.',
@@ -22,7 +23,7 @@ areas = {
  'bk_set': 'bsonkit/set.go, bsonkit/index.go, bsonkit/schema.go, bsonkit/transform.go, bsonkit/decode.go.',
 }
 t = open(here + '/refactor_prompt_template.txt').read()
-extra = open(here + '/refactor_prompt_second_round.txt').read() if second else ''
+extra = open(here + '/refactor_prompt_second_round.txt').read() if second else (open(here + '/refactor_prompt_third_round.txt').read() if third else '')
 os.makedirs(rd + '/out', exist_ok=True)
 for k, a in areas.items():
     open(f'{rd}/{k}.prompt.txt', 'w').write(t.replace('{DIR}', f'{rd}/{k}').replace('{OUT}', f'{rd}/out/{k}').replace('{AREA}', a) + extra)
